@@ -554,6 +554,17 @@ func (d *dealer) syncRegister(callee *wamp.Session, msg *wamp.Register, match, i
 
 func (d *dealer) syncUnregister(callee *wamp.Session, msg *wamp.Unregister) []*wamp.Publish {
 	var metaPubs []*wamp.Publish
+	// A session that is not a callee of the registration cannot unregister it.
+	if reg, ok := d.registrations[msg.Registration]; ok && !slices.Contains(reg.callees, callee) {
+		d.log.Println("Cannot unregister: sender is not registered for", msg.Registration)
+		d.trySend(callee, &wamp.Error{
+			Type:    msg.MessageType(),
+			Request: msg.Request,
+			Details: wamp.Dict{},
+			Error:   wamp.ErrNoSuchRegistration,
+		})
+		return metaPubs
+	}
 	// Delete the registration ID from the callee's set of registrations.
 	if _, ok := d.calleeRegIDSet[callee]; ok {
 		delete(d.calleeRegIDSet[callee], msg.Registration)
